@@ -264,6 +264,52 @@ def micro_stream(res, names, rng, k, pred=None):
                                       'impl': enc_cycs(cs), 'model': ans.split(' ')[0]})
 
 
+def extreme_scale_stream(res, names, rng, k):
+    """histories of extreme magnitude: small integers times an exact power of two, 2^-1000 … 2^900 (strains in units of 1e-300 or
+    loads of 1e270 are absurd, but the counting rules compare values and never multiply them: a product of two slopes, or a squared
+    range, under- or overflows here).  The cycle-by-cycle list (which the implementation does not round) must be the model's list
+    of the integer history, scaled — exactly."""
+    import math
+    core.import_impl()
+    from ffpack import lcc
+    reqs, meta = [], []
+    for _ in range(k):
+        while True:
+            b, _s = core.gen_history(rng, maxlen=14, closed=(rng.random() < 0.4))
+            if max(abs(v) for v in b) < 2048 and len(set(b)) >= 2:
+                break
+        e = rng.choice([-1000, -700, -560, 480, 900])
+        data = [math.ldexp(float(v), e) for v in b]
+        for name in names:
+            if not valid_for(name, b):
+                continue
+            f = getattr(lcc, API[name])
+            res.evaluations += 1
+            res.stat('extreme_magnitude_2^%d' % e)
+            try:
+                seq = f(list(data), aggregate=False)
+                seq = [] if seq == [[]] else seq
+                cs = []
+                for a, b2, c in seq:
+                    xa, xb = math.ldexp(float(a), -e), math.ldexp(float(b2), -e)
+                    if xa != int(xa) or xb != int(xb):
+                        raise OffGrid(repr((a, b2)))
+                    cs.append((int(xa), int(xb), units(c)))
+            except Exception as ex:  # noqa
+                res.failures.append({'signature': f'{res.pid}:{name}:extreme-scale:{type(ex).__name__}:{enc_list(b)}:{e}',
+                                     'clause': 'valid history (small integers times 2^%d) raised or returned points that are not its samples: %s' % (e, repr(ex)[:100]),
+                                     'api': API[name], 'input': b, 'power_of_two': e})
+                continue
+            reqs.append(model_line(name, b))
+            meta.append((name, b, e, cs))
+    for (name, b, e, cs), ans in zip(meta, core.driver_batch(reqs)):
+        res.traces += 1
+        if enc_cycs(cs) != ans.split(' ')[0]:
+            res.failures.append({'signature': f'{res.pid}:{name}:extreme-scale:cycles:{enc_list(b)}:{e}',
+                                 'clause': 'the cycle list of the history times 2^%d is not the scaled cycle list of the history' % e,
+                                 'api': API[name], 'input': b, 'power_of_two': e, 'impl_output': enc_cycs(cs), 'model': ans.split(' ')[0]})
+
+
 def run_impl(name, h, s):
     """-> {'seq': [(a,b,u)], 'table': [(k,u)]} on the integer grid, or {'error': kind}"""
     core.import_impl()
